@@ -291,7 +291,7 @@ class C12(Prop):
     return {'op': 'views', 'spec': spec, 'dnas': uniq, 'chains': chains}
 
   def generate(self, rng, tier):
-    n = 110 if tier == 'quick' else 1500
+    n = 90 if tier == 'quick' else 1500
     for i in range(n):
       allow_inf = (i % 4 == 3)
       spec = None
@@ -330,7 +330,7 @@ class C12(Prop):
           c = G.S([copy.deepcopy(a), G.C(1, [[], [G.F([0, 1], [2, 1], name='lr', loc=['w'])]], loc=['u'])])
           d = G.C(1, [[copy.deepcopy(a)], []], loc=['top'])
           for spec in (a, b, c, d):
-            yield self.make_case(copy.deepcopy(spec), rng, n_members=8, n_chains=2)
+            yield self.make_case(copy.deepcopy(spec), rng, n_members=6 if tier == 'quick' else 8, n_chains=2)
     fam = [p for p in G.family_points(max_n=3, max_k=3) if G.size_bound(p) <= 60]
     picked = rng.sample(fam, 40) if tier == 'quick' else fam
     for p in picked:
